@@ -1972,7 +1972,20 @@ class unyt_array(np.ndarray):
                             "cannot be multiplied, divided, subtracted or "
                             "added with data that has different units."
                         )
-                    inp1 = np.asarray(inp1, dtype=new_dtype) * conv
+                    if (
+                        unit_operator is _preserve_units
+                        and u0.dimensions is temperature
+                        and u1.base_offset != 0.0
+                        and u0.base_offset == 0.0
+                    ):
+                        # difference + point: the result is labelled with the
+                        # point's unit, so the difference (not the point) is
+                        # the operand that has to change scale
+                        conv0, _ = u0.get_conversion_factor(u1, inp0.dtype)
+                        dtype0 = np.dtype("f" + str(inp0.dtype.itemsize))
+                        inp0 = np.asarray(inp0, dtype=dtype0) * dtype0.type(conv0)
+                    else:
+                        inp1 = np.asarray(inp1, dtype=new_dtype) * conv
             # get the unit of the result
             mul, unit = unit_operator(u0, u1)
             # actually evaluate the ufunc
